@@ -75,7 +75,7 @@ def run(chk, facts):
     # each translation is written to the file of its own source: the pairing-by-position obligations of the project pipeline (C13)
     from . import c13
     from .common import borrow
-    borrow(chk, facts, c13, ("R-C13-3|derive:", "R-C13-3|zip", "R-C13-3|one-per-path:", "R-C13-3|sources-zip-paths", "R-C13-3|pipeline-order", "R-C13-3|anchor"),
+    borrow(chk, facts, c13, ("R-C13-3|derive:", "R-C13-3|zip", "R-C13-3|one-per-path:", "R-C13-3|paired-lists-not-reordered", "R-C13-3|sources-zip-paths", "R-C13-3|pipeline-order", "R-C13-3|anchor"),
            {"R-C13-3": "the translation of a file is written to that file's own output path: path lists are order-preserving maps of one list and are paired by position (shared with C13)"})
     chk.assume("equality of observable behaviour is not decided: the rules are necessary conditions on the shape of the translation (ND: class/constructor "
                "semantics, statement/expression context handling beyond R-C01-4, value-level arithmetic)")
